@@ -1058,6 +1058,11 @@ class Exec(object):
     def ev_IfExp(self, st, e):
         ctx = self.ctx
         c = truth(ctx, st, self.ev(st, e.test), e)
+        cs = z3.simplify(c)
+        if z3.is_true(cs):
+            return self.ev(st, e.body)
+        if z3.is_false(cs):
+            return self.ev(st, e.orelse)
         a = st.fork(c)
         b = st.fork(z3.Not(c))
         va = self.ev(a, e.body)
@@ -1426,6 +1431,8 @@ class BoundMethod(object):
 
 
 GHOST_NAMES = {
+    "gval",
+    "apply_forall",
     "existing_unchanged",
     "lo_has",
     "lo_row",
